@@ -536,7 +536,8 @@ expandfunc(struct macro *m)
 		error(&t->loc, "too many arguments for macro '%s'", m->name);
 	for (i = 0, t = tok.val; i < m->nparam; ++i) {
 		arg[i].token = t;
-		t += arg[i].ntoken;
+		if (arg[i].ntoken)
+			t += arg[i].ntoken;
 	}
 	m->arg = arg;
 }
